@@ -29,10 +29,10 @@ var c47LibVerify = map[string]cryptoRoles{
 }
 
 var c47LibSign = map[string]cryptoRoles{
-	"golang.org/x/crypto/ed25519.Sign":                       {key: 0, msg: 1, sig: -1},
-	"crypto/ed25519.Sign":                                    {key: 0, msg: 1, sig: -1},
-	"(*github.com/herumi/bls-go-binary/bls.SecretKey).Sign":  {key: 0, msg: 1, sig: -1},
-	"(*github.com/herumi/bls/ffi/go/bls.SecretKey).Sign":     {key: 0, msg: 1, sig: -1},
+	"golang.org/x/crypto/ed25519.Sign":                      {key: 0, msg: 1, sig: -1},
+	"crypto/ed25519.Sign":                                   {key: 0, msg: 1, sig: -1},
+	"(*github.com/herumi/bls-go-binary/bls.SecretKey).Sign": {key: 0, msg: 1, sig: -1},
+	"(*github.com/herumi/bls/ffi/go/bls.SecretKey).Sign":    {key: 0, msg: 1, sig: -1},
 }
 
 // c47Sources: the parameters of fn and the fields (by name) of fn's receiver that v
@@ -399,8 +399,6 @@ func c47Resolve(m, w *ssa.Function, via *ssa.Call, v ssa.Value) c47Deps {
 	}
 	return out
 }
-
-
 
 func c47Verify(r *core.Report, p *core.Prog, scheme string, m *ssa.Function) {
 	if m == nil || len(m.Params) != 3 {
